@@ -16,7 +16,7 @@ LEVEL = "model_checking"
 # ---- operation menus --------------------------------------------------------------------------------
 BASH_SRC = "bash-0:4.3-1.fc23.src"
 CEPH_SRC = "ceph-2:12.2.5-25.el7cp.src"
-PERL_SRC = "perl-Foo-Bar2-0:1.2_3-4.src"
+PERL_SRC = "perl-Foo-Bar2-10:1.2_3-4.src"
 CELLS = [("Server", "x86_64"), ("Server", "i386"), ("Client", "x86_64")]
 
 
@@ -29,7 +29,7 @@ def rpm_valid_ops(deep=False):
             ["rpms", v, a, "bash-debuginfo-0:4.3-1.fc23.x86_64", "%s/%s/debug/bash-debuginfo.rpm" % (v, a), None, "debug", BASH_SRC + ".rpm"],
             ["rpms", v, a, BASH_SRC, "%s/source/SRPMS/b/bash.src.rpm" % v, "abcdef12", "source", None],
             ["rpms", v, a, "ceph-2:12.2.5-25.el7cp.x86_64", "%s/%s/os/Packages/c/ceph.rpm" % (v, a), "AbCdEf12", "binary", CEPH_SRC],
-            ["rpms", v, a, "x/y/perl-Foo-Bar2-0:1.2_3-4.noarch.rpm", "%s/%s/os/Packages/p/perl-Foo-Bar2.rpm" % (v, a), None, "binary", PERL_SRC],
+            ["rpms", v, a, "x/y/perl-Foo-Bar2-10:1.2_3-4.noarch.rpm", "%s/%s/os/Packages/p/perl-Foo-Bar2.rpm" % (v, a), None, "binary", PERL_SRC],
         ]
     # the same entry again with other values (last call wins), and a nosrc source package
     ops.append(["rpms", "Server", "x86_64", "bash-0:4.3-1.fc23.x86_64", "other/path/bash.rpm", None, "binary", BASH_SRC])
@@ -128,6 +128,9 @@ def m_step(builder, state, op):
 def run_history(builder, hist, cycle=False):
     """Replays hist on a fresh manifest object in lockstep with the model -> (model state, problems, reasons)."""
     b = BUILDERS[builder]
+    other = misc.set_compose(b["new"]())          # an unrelated manifest filled first: nothing of it may show up in `obj`
+    call(other.add, *copy.deepcopy(b["valid"]()[-1][1:]))
+    call(other.add, *copy.deepcopy(b["valid"]()[0][1:]))
     obj = misc.set_compose(b["new"]())
     state = {}
     reasons = []
@@ -164,6 +167,11 @@ def run_history(builder, hist, cycle=False):
 def cycle_problems(builder, obj, state):
     """C03: write -> read -> compare with the reference mapping -> write again."""
     b = BUILDERS[builder]
+    if builder == "extra":
+        # exporting one tree first must not change what the compose-wide manifest holds
+        for variant in sorted(state):
+            for arch in sorted(state[variant]):
+                call(obj.dump_for_tree, io.StringIO(), variant, arch, "%s/%s/os" % (variant, arch))
     w = call(obj.dumps)
     if w[0] != "ok":
         return ["a manifest built by valid adds cannot be written: %s" % w[1]]
